@@ -797,164 +797,293 @@ def wiring(ctx):
                '%s must be connected to %s unconditionally (found %s)' % (lhs, rhs, [q.fmt(a)[:100] for a in ds]))
 
 
-# ------------------------------------------------------------------------------------------ walk
-def walks(ctx, M, r):
+# ------------------------------------------------------------------------------------------ product with the reference monitor
+JUNK, CUR = 0, 1          # what the pipeline word register holds: anything / the word taken from data_sink and not yet forwarded
+
+
+def product(ctx, M, r):
+    """Exhaustive fixpoint over ALL reachable states of
+         FSM state x every small control register (mask, zero-length flag, latched type / delayed, ...) x
+         "pipeline register holds the pending word" x abstract content of the two CRC units x reference monitor
+       under ALL inputs of every cycle (source.ready, generate, header type / delayed, data_sink valid-mask class and last).
+       The monitor is the specification: it knows which symbol word must be transferred next (HPSTART, DW0..DW3, SDP, EDB,
+       payload word, last word with mask m, CRC word, END word), keeps the 0/1 "a word was taken from data_sink and not yet
+       forwarded" bit, and the CRC units are abstracted to "absorbed exactly the words transferred / taken so far".  Data
+       words stay symbolic (affine forms), so one abstract transition stands for all data values; the induction over the
+       fixpoint covers all payload lengths and all ready patterns.
+       Environment assumption (stream protocol): a non-empty payload keeps offering words until the one marked last has been
+       taken; words before the last one are full (mask 1111), the last one has mask 1111/0111/0011/0001."""
     ir, fsm, vs = M.ir, M.fsm, M.vs
-    idle, LH, PW, PM, c16, c32 = r['idle'], r['LH'], r['PW'], r['PM'], r['c16'], r['c32']
+    idle, LH, PW, PM, c16, c32, names, lat = (r[k] for k in ('idle', 'LH', 'PW', 'PM', 'c16', 'c32', 'names', 'lat'))
+    LDW0, LDEL, HDW0, HDEL = LH + '.dw0', LH + '.delayed', 'self.header.dw0', 'self.header.delayed'
     creg = sorted({t for a in ir.assigns if a.domain != 'comb' for t in a.lhs_sigs()
                    if t != PW and t != LH and not t.startswith(LH + '.')})
-    crcvars = {}
-    accs = {}
+    types = [DATA_TYPE, OTHER_TYPES[1]]
+    if ctx.tier == 'thorough':
+        types = [t | hi for t in (DATA_TYPE,) + OTHER_TYPES for hi in (0, 0xFFFFFFE0)]
+    D, JV, C = vs.vec('$pending-word', 32), vs.vec('$stale', 32), vs.vec(c32 + '.crc', 32)
+    SINK = vs.vec(DP, 32)
+    dws = [vs.vec('%s.dw%d' % (LH, k), 32) for k in range(3)]
+    dw3 = [0] * 32
+    dw3[0:16] = vs.vec(c16 + '.crc', 16)
+    for f, lo, hi in DW3_FIELDS:
+        dw3[lo:hi] = vs.vec('%s.%s' % (LH, f), hi - lo)
+    dw3[27:32] = gf2.crc_field(gf2.serial_crc_step([1] * 5, dw3[16:27], 0x05, 5))
 
-    def absorb(acc, item):
-        """Identity of a CRC unit's content: 0 = cleared, otherwise (content before, what was absorbed) interned."""
-        return accs.setdefault((acc, item), len(accs) + 1)
+    def const4(*syms):
+        return [(cbits(v, 8), 1) for v in syms]
 
-    def crcvar(kind, acc, n):
-        k = (kind, acc)
-        if k not in crcvars:
-            crcvars[k] = vs.vec('%s#%d' % (kind, len(crcvars)), n)
-        return crcvars[k]
+    def data4(w):
+        return [(w[8 * j:8 * j + 8], 0) for j in range(4)]
 
-    def sinkword(i):
-        return vs.vec('word%d' % i, 32)
+    def tail(k):
+        """The byte sequence after k payload bytes of the last word: CRC32, END END END EPF, idle (ctrl 0, data free)."""
+        seq = [(D[8 * j:8 * j + 8], 0) for j in range(k)] + data4(C) + const4(END, END, END, EPF)
+        return seq + [(None, 0)] * (12 - len(seq))
+    readsig = {}
 
-    def run_one(nbytes, ready, hdr_type, delayed):
-        nwords = (nbytes + 3) // 4
-        masks = [15] * nwords
-        if nbytes % 4:
-            masks[-1] = (1 << (nbytes % 4)) - 1
-        reg = {n: (ir.signals[n].init or 0) if n in ir.signals else 0 for n in creg}
-        pw = [0] * 32
-        s, i, t = idle, 0, 0
-        a16 = a32 = 0
-        out = []
-        while True:
-            if t >= 600:
-                return None, 'the packet is not finished after %d cycles (state %s)' % (t, r['names'].get(s, s))
-            env = dict(reg)
-            env.update({SR: ready(t), GEN: 1, DV: masks[i] if i < nwords else 0, DL: int(i == nwords - 1),
-                        LH + '.delayed': delayed, LH + '.dw0': hdr_type, 'self.header.delayed': delayed,
-                        'self.header.dw0': hdr_type})
-            env[DR] = M.cdrive(DR, s, env)[0]
-            sub = {PW: pw, c32 + '.crc': crcvar('crc32', a32, 32), c16 + '.crc': crcvar('crc16', a16, 16), DP: sinkword(i)}
-            w, c, v, _ = M.word(s, env, sub)
-            if v and env[SR]:
-                out.append((w, c))
-            # CRC units
-            n16, n32 = a16, a32
-            if M.cdrive(c16 + '.clear', s, env)[0]:
-                n16 = 0
-            elif M.cdrive(c16 + '.advance_crc', s, env)[0]:
-                n16 = absorb(a16, (tuple(M.fdrive(c16 + '.data_input', s, env, dict(sub, **{SP: w}))[0]), 4))
-            adv = [nb for port, nb in (('advance_word', 4), ('advance_3B', 3), ('advance_2B', 2), ('advance_1B', 1))
-                   if M.cdrive('%s.%s' % (c32, port), s, env)[0]]
-            if M.cdrive(c32 + '.clear', s, env)[0]:
-                n32 = 0
-            elif adv:
-                if len(adv) > 1:
-                    return None, 'two CRC32 advance strobes in one cycle'
-                n32 = absorb(a32, (tuple(M.fdrive(c32 + '.data_input', s, env, sub)[0]), adv[0]))
-            # registers
-            new = {}
-            for n in creg:
-                a = M.load(n, s, env)
-                if a is not None:
+    def reads(s):
+        """Signals read by the guards and right-hand sides that are live in FSM state s."""
+        if s not in readsig:
+            out = set()
+            for it in fsm.out_edges(s) + [a for a in ir.assigns if M.in_state(a, s)]:
+                for l in it.guard:
+                    if isinstance(l.e, E):
+                        out |= l.e.sigs()
+                if getattr(it, 'kind', '') == 'assign' and isinstance(it.rhs, E) and it.lhs.canon() != PW:
+                    out |= it.rhs.sigs()
+            readsig[s] = out
+        return readsig[s]
+    driven = {t for a in ir.assigns for t in a.lhs_sigs()}
+    cache = {}
+
+    def cycle(s, regs, tag, inp):
+        """Everything the design does in one cycle, from the extracted assignments (memoised)."""
+        k = (s, regs, tag, inp)
+        if k in cache:
+            return cache[k]
+        env = dict(zip(creg, regs[2:]))
+        env.update({LDW0: regs[0], LDEL: regs[1]})
+        env.update(inp)
+        env[DR] = M.cdrive(DR, s, env)[0]
+        w, c, v, _ = M.word(s, env, {PW: D if tag == CUR else JV})
+        o = {'dr': env[DR], 'xfer': bool(v and env[SR]), 'word': w, 'ctrl': c, 'nxt': M.nxt(s, env)}
+        o['clr16'] = M.cdrive(c16 + '.clear', s, env)[0]
+        o['adv16'] = M.cdrive(c16 + '.advance_crc', s, env)[0]
+        o['in16'] = M.fdrive(c16 + '.data_input', s, env, {SP: w, PW: D if tag == CUR else JV})[0] == w
+        o['clr32'] = M.cdrive(c32 + '.clear', s, env)[0]
+        o['adv32'] = [nb for port, nb in (('advance_word', 4), ('advance_3B', 3), ('advance_2B', 2), ('advance_1B', 1))
+                      if M.cdrive('%s.%s' % (c32, port), s, env)[0]]
+        o['in32'] = M.fdrive(c32 + '.data_input', s, env)[0] == SINK
+        new = list(regs)
+        for a in sorted(ir.drivers(LH, exact=False), key=lambda a: a.order):
+            if a.domain != 'comb' and M.in_state(a, s) and M.holds(a, env):
+                t = a.lhs.canon()
+                if t == LH and a.rhs.canon() == 'self.header':
+                    new[0], new[1] = env[HDW0], env[HDEL]
+                elif t in (LDW0, LDEL):
                     val = cev(a.rhs, env)
                     if val is None:
-                        raise AnalysisError('register value not decidable: %s' % q.fmt(a))
-                    new[n] = val & ((1 << M.width(n)) - 1)
-            a = M.load(PW, s, env)
+                        raise AnalysisError('latched header control field not decidable: %s' % q.fmt(a))
+                    new[0 if t == LDW0 else 1] = val
+        for i, n in enumerate(creg):
+            a = M.load(n, s, env)
             if a is not None:
-                pw = gf2.forms(a.rhs, vs, subst=sub)
-            nxt = M.nxt(s, env)
-            reg.update(new)
-            a16, a32 = n16, n32
-            if env[DR]:
-                i += 1
-            t += 1
-            if nxt is not None:
-                if nxt == idle:
-                    break
-                s = nxt
-        return (out, i), None
+                val = cev(a.rhs, env)
+                if val is None:
+                    raise AnalysisError('register value not decidable: %s' % q.fmt(a))
+                new[2 + i] = val & ((1 << M.width(n)) - 1)
+        o['regs'] = tuple(new)
+        a = M.load(PW, s, env)
+        o['pw'] = None if a is None else ('sink' if gf2.forms(a.rhs, vs, subst={PW: D if tag == CUR else JV}) == SINK else 'other')
+        cache[k] = o
+        return o
 
-    def expected(nbytes, hdr_type, delayed):
-        nwords = (nbytes + 3) // 4
-        dws = [vs.vec('%s.dw%d' % (LH, k), 32) for k in range(3)]
-        dw3 = [0] * 32
-        acc = 0
-        for x in dws:
-            acc = absorb(acc, (tuple(x), 4))
-        dw3[0:16] = crcvar('crc16', acc, 16)
-        for f, lo, hi in DW3_FIELDS:
-            dw3[lo:hi] = vs.vec('%s.%s' % (LH, f), hi - lo)
-        dw3[27:32] = gf2.crc_field(gf2.serial_crc_step([1] * 5, dw3[16:27], 0x05, 5))
-        sym = [(cbits(SHP, 8), 1)] * 3 + [(cbits(EPF, 8), 1)]
-        for w_ in dws + [dw3]:
-            sym += [(w_[8 * j:8 * j + 8], 0) for j in range(4)]
-        if (hdr_type & 0x1F) != DATA_TYPE:
-            return sym, 0
-        sym += [(cbits(SDP, 8), 1)] * 3 + [(cbits(EPF, 8), 1)]
-        if delayed:
-            return sym + [(cbits(EDB, 8), 1)] * 3 + [(cbits(EPF, 8), 1)], 0
-        acc = 0
-        for k in range(nwords):
-            nb = min(4, nbytes - 4 * k)
-            acc = absorb(acc, (tuple(sinkword(k)), nb))
-            sym += [(sinkword(k)[8 * j:8 * j + 8], 0) for j in range(nb)]
-        cv = crcvar('crc32', acc, 32)
-        sym += [(cv[8 * j:8 * j + 8], 0) for j in range(4)]
-        sym += [(cbits(END, 8), 1)] * 3 + [(cbits(EPF, 8), 1)]
-        return sym, nwords
+    # ---- inputs of one cycle: everything the design reads in that state plus what the monitor observes
+    def inputs(s, mon):
+        ph, isdata, dly, zl, pend, pmask, plast, ended, any_ = mon
+        rd = reads(s)
+        doms = [(SR, [0, 1])]
+        if s == idle or GEN in rd:
+            doms.append((GEN, [0, 1]))
+        if s == idle or HDW0 in rd or HDEL in rd or 'self.header' in rd:
+            doms += [(HDW0, types), (HDEL, [0, 1])]
+        for x in sorted(rd):
+            if x in driven or x in (SR, GEN, DV, DL, DR, HDW0, HDEL, 'self.header') or x.startswith(LH + '.'):
+                continue
+            if x.startswith('self.header.'):
+                continue                      # other live header fields: data, not control
+            if M.width(x) != 1:
+                raise AnalysisError('state %s is controlled by the wide input %s; do not know which values to enumerate' % (s, x))
+            doms.append((x, [0, 1]))
+        owes = ph in ('sdp', 'body') and isdata and not dly and not zl and not ended
+        sink = [(15, 0)] + [(m, 1) for m in MASKS] if owes else [(v, l) for v in (0,) + MASKS for l in (0, 1)]
+        keys = [k for k, _ in doms]
+        for vals in itertools.product(*[d for _, d in doms]):
+            for v, l in sink:
+                yield tuple(zip(keys + [DV, DL], list(vals) + [v, l]))
 
-    def compare(res, exp, nwords):
-        out, taken = res
-        got = [(w[8 * j:8 * j + 8], (c >> j) & 1) for w, c in out for j in range(4)]
-        for k, (f, c) in enumerate(exp):
-            if k >= len(got):
-                return 'stream ends after %d symbols, %d expected' % (len(got), len(exp))
-            if got[k][1] != c:
-                return 'symbol %d (word %d byte %d) has ctrl=%d, must be %d' % (k, k // 4, k % 4, got[k][1], c)
-            if got[k][0] != f:
-                return 'symbol %d (word %d byte %d) %s' % (k, k // 4, k % 4, bdiff(vs, got[k][0], f))
-        for k in range(len(exp), len(got)):
-            if got[k][1]:
-                return 'padding symbol %d after the packet is a control symbol' % k
-        if len(got) - len(exp) > 3:
-            return '%d symbols sent, %d expected' % (len(got), len(exp))
-        if taken != nwords:
-            return '%d data_sink words accepted, %d offered' % (taken, nwords)
+    # ---- the monitor
+    IDLE_MON = ('idle', 0, 0, 0, 0, 0, 0, 0, 0)
+    cats = ['order.hpstart', 'order.dw0', 'order.dw1', 'order.dw2', 'order.dw3', 'order.sdp', 'order.edb', 'order.payload-word'] + \
+           ['order.last-word[mask=%s]' % format(m, '04b') for m in MASKS] + \
+           ['order.crc-word[%s]' % t for t in ['mask=%s' % format(m, '04b') for m in MASKS] + ['zero-length']] + \
+           ['order.end-word[%s]' % t for t in ['mask=%s' % format(m, '04b') for m in MASKS] + ['zero-length']]
+    other = ['nothing-spurious', 'no-word-lost', 'packet-complete', 'crc16-content', 'crc32-content']
+    seen = dict.fromkeys(cats + other, 0)
+    viol = {}
+
+    def check_word(cat, o, exp):
+        """exp: four (byte forms or None, ctrl bit)."""
+        seen[cat] += 1
+        for j, (want, wc) in enumerate(exp):
+            if (o['ctrl'] >> j) & 1 != wc:
+                return cat, 'ctrl bit %d is %d, must be %d' % (j, (o['ctrl'] >> j) & 1, wc)
+            if want is not None and o['word'][8 * j:8 * j + 8] != want:
+                return cat, 'byte %d %s' % (j, bdiff(vs, o['word'][8 * j:8 * j + 8], want))
         return None
 
-    def lcg(seed):
-        def f(t):
-            x = (seed * 2654435761 + t * 40503) & 0xFFFFFFFF
-            x ^= x >> 13
-            x = (x * 1274126177) & 0xFFFFFFFF
-            return int(((x >> 7) & 3) != 0) if t < 500 else 1
-        return f
-    pats = [('always', lambda t: 1), ('alternating', lambda t: t & 1), ('random-1', lcg(1))]
-    lengths = list(range(0, 10))
-    if ctx.tier == 'thorough':
-        pats += [('random-%d' % k, lcg(k)) for k in range(2, 8)] + [('every-third', lambda t: int(t % 3 == 2))]
-        pats += [('stall@%d' % k, (lambda k: lambda t: int(not (k <= t < k + 2)))(k)) for k in range(0, 20)]
-        lengths = list(range(0, 34)) + [1021, 1022, 1023, 1024]
-
-    def scenario(keyname, nbytes, hdr_type, delayed, what):
+    def step(state, inp):
+        """One transition of the product; returns (next state or None, violation or None)."""
+        s, regs, tag, n16, st32, mon = state
+        ph, isdata, dly, zl, pend, pmask, plast, ended, any_ = mon
+        env = dict(inp)
+        o = cycle(s, regs, tag, inp)
         bad = None
-        for pn, pf in (pats if nbytes < 64 else pats[:2]):
-            res, err = run_one(nbytes, pf, hdr_type, delayed)
-            if err is None:
-                exp, nw = expected(nbytes, hdr_type, delayed)
-                err = compare(res, exp, nw)
-            if err is not None:
-                bad = 'ready pattern %s: %s' % (pn, err)
-                break
-        ctx.ob('C36.stream', '%s.stream[%s]' % (CLS, keyname), bad is None, fsm.loc,
-               '%s must be sent as SHP SHP SHP EPF, DW0..DW3%s: %s' % (what, ', SDP SDP SDP EPF, payload, CRC32, END END END EPF'
-                                                                     if (hdr_type & 0x1F) == DATA_TYPE else '', bad))
-    for n in lengths:
-        scenario('len=%d' % n, n, DATA_TYPE, 0, 'a data packet with %d payload bytes' % n)
-    scenario('delayed', 8, DATA_TYPE, 1, 'a retransmitted (delayed) data header')
-    scenario('non-data', 0, OTHER_TYPES[1], 0, 'a transaction packet')
+        # a packet starts when generate is seen in idle
+        if s == idle and ph == 'idle' and env.get(GEN):
+            ph, isdata, dly = 'hp', int((env[HDW0] & 0x1F) == DATA_TYPE), env[HDEL]
+            started = True
+        else:
+            started = False
+        xfer16 = False
+        crc_used = False
+        if o['xfer'] and not started:
+            if ph in ('hp', 'dw0', 'dw1', 'dw2', 'dw3', 'sdp', 'edb'):
+                exp = {'hp': const4(SHP, SHP, SHP, EPF), 'dw0': data4(dws[0]), 'dw1': data4(dws[1]), 'dw2': data4(dws[2]),
+                       'dw3': data4(dw3), 'sdp': const4(SDP, SDP, SDP, EPF), 'edb': const4(EDB, EDB, EDB, EPF)}[ph]
+                bad = check_word('order.' + {'hp': 'hpstart'}.get(ph, ph), o, exp)
+                if ph in ('dw0', 'dw1', 'dw2'):
+                    xfer16 = True
+                if ph == 'dw3':
+                    seen['crc16-content'] += 1
+                    if n16 != 3 and bad is None:
+                        bad = ('crc16-content', 'when DW3 is sent the CRC16 unit holds %s instead of exactly DW0, DW1, DW2' % (
+                            'something else' if n16 == 'dirty' else '%d header word(s)' % n16))
+                    zl = int(env[DV] == 0)
+                nph = {'hp': 'dw0', 'dw0': 'dw1', 'dw1': 'dw2', 'dw2': 'dw3', 'dw3': 'sdp' if isdata else 'idle',
+                       'sdp': 'edb' if dly else ('crc' if zl else 'body'), 'edb': 'idle'}[ph]
+                if ph == 'sdp' and nph == 'crc':
+                    pmask = 15
+                ph = nph
+            elif ph == 'body' and pend and not plast:
+                bad = check_word('order.payload-word', o, data4(D))
+                pend = 0
+            elif ph == 'body' and pend and plast:
+                bad = check_word('order.last-word[mask=%s]' % format(pmask, '04b'), o, tail(popcount(pmask))[0:4])
+                crc_used = pmask != 15
+                pend, ph = 0, 'crc'
+            elif ph == 'crc':
+                t = 'zero-length' if zl else 'mask=%s' % format(pmask, '04b')
+                bad = check_word('order.crc-word[%s]' % t, o, tail(0 if zl else popcount(pmask))[4:8])
+                crc_used = True
+                ph = 'end'
+            elif ph == 'end':
+                t = 'zero-length' if zl else 'mask=%s' % format(pmask, '04b')
+                bad = check_word('order.end-word[%s]' % t, o, tail(0 if zl else popcount(pmask))[8:12])
+                ph = 'idle'
+            else:
+                bad = ('nothing-spurious', 'a word is driven valid and accepted while %s' % (
+                    'no packet is being sent' if ph == 'idle' else 'no payload word is pending'))
+        elif o['xfer'] and started:
+            bad = ('nothing-spurious', 'a word is driven valid in the cycle that starts the packet')
+        seen['nothing-spurious'] += 1
+        if crc_used:
+            seen['crc32-content'] += 1
+            if not (st32 == 'sync' if any_ else st32 == 'clean') and bad is None:
+                bad = ('crc32-content', 'CRC32 bytes are sent while the CRC32 unit %s' % (
+                    'was not cleared since the previous packet' if not any_ else 'has not absorbed exactly the words taken'))
+        # words taken from data_sink
+        take = bool(o['dr'] and env[DV])
+        seen['no-word-lost'] += 1
+        if take:
+            if not (ph == 'body' and isdata and not ended):
+                if bad is None:
+                    bad = ('no-word-lost', 'a data_sink word is accepted %s' % (
+                        'after the last word of the payload' if ended else 'while no payload is being sent (it is lost)'))
+            elif pend:
+                if bad is None:
+                    bad = ('no-word-lost', 'a data_sink word is accepted while the previous one has not been forwarded')
+            pend, pmask, plast = 1, env[DV], env[DL]
+            ended = int(env[DL])
+        # pipeline register
+        ntag = tag if o['pw'] is None else (CUR if (o['pw'] == 'sink' and take) else JUNK)
+        if take and o['pw'] is None:
+            ntag = JUNK
+        if not pend:
+            ntag = JUNK
+        # CRC16 content: number of header words absorbed
+        if o['clr16']:
+            n16 = 0
+        elif o['adv16']:
+            n16 = n16 + 1 if (xfer16 and n16 != 'dirty' and 'dw%d' % n16 == mon[0] and o['in16']) else 'dirty'
+        # CRC32 content: clean / exactly the words taken / anything else
+        if o['clr32']:
+            st32 = 'dirty' if (any_ or take) else 'clean'
+        elif o['adv32'] or take:
+            good = take and o['adv32'] == [popcount(env[DV])] and o['in32'] and (st32 == 'sync' if any_ else st32 == 'clean')
+            st32 = 'sync' if good else 'dirty'
+        if take:
+            any_ = 1
+        if ph == 'idle':
+            isdata = dly = zl = pend = pmask = plast = ended = any_ = 0
+        if ph not in ('body', 'crc', 'end'):
+            pmask = plast = 0 if not pend else pmask
+        nxt = o['nxt'] if o['nxt'] is not None else s
+        seen['packet-complete'] += 1
+        if nxt == idle and s != idle and ph != 'idle' and bad is None:
+            bad = ('packet-complete', 'the transmitter returns to idle while the monitor still expects the %s word' % ph)
+        if bad is not None:
+            return None, bad
+        return (nxt, o['regs'], ntag, n16, st32, (ph, isdata, dly, zl, pend, pmask, plast, ended, any_)), None
+
+    init_regs = (0, 0) + tuple((ir.signals[n].init or 0) if n in ir.signals else 0 for n in creg)
+    start = (idle, init_regs, JUNK, 0, 'clean', IDLE_MON)
+    parent = {start: None}
+    work = [start]
+    ntrans = 0
+    while work:
+        st = work.pop()
+        if len(parent) > 200000:
+            raise AnalysisError('product state space larger than expected (%d states)' % len(parent))
+        for inp in inputs(st[0], st[5]):
+            ntrans += 1
+            nx, bad = step(st, inp)
+            if bad is not None:
+                if bad[0] not in viol:
+                    path = []
+                    x = st
+                    while x is not None and len(path) < 8:
+                        path.append(names.get(x[0], x[0]))
+                        x = parent[x][0] if parent[x] else None
+                    viol[bad[0]] = '%s; in state %s under %s (reached via %s)' % (
+                        bad[1], st[0], show(dict(inp)), ' <- '.join(path))
+                continue
+            if nx not in parent:
+                parent[nx] = (st, inp)
+                work.append(nx)
+    ctx.note('product fixpoint: %d abstract states, %d transitions, %d distinct one-cycle evaluations' % (
+        len(parent), ntrans, len(cache)))
+    what = {'nothing-spurious': 'no word may be transferred on source except the next word of the packet',
+            'no-word-lost': 'every word accepted from data_sink must be forwarded exactly once, in order, and only payload '
+                            'words of the current packet may be accepted',
+            'packet-complete': 'the transmitter may return to idle only after the last word of the packet',
+            'crc16-content': 'when DW3 is sent the CRC16 unit must have absorbed exactly DW0, DW1, DW2 since it was cleared',
+            'crc32-content': 'when CRC32 bytes are sent the CRC32 unit must have absorbed exactly the words taken from '
+                             'data_sink, with their byte counts, since it was cleared'}
+    for cat in cats:
+        ctx.ob('C36.product', '%s.%s' % (CLS, cat), cat not in viol and seen[cat] > 0, fsm.loc,
+               'for every reachable state and every input the %s transferred must be the one the packet format requires '
+               'next: %s' % (cat.split('.', 1)[1], viol.get(cat, 'never reached in the product' if not seen[cat] else None)))
+    for cat in other:
+        ctx.ob('C36.product', '%s.%s' % (CLS, cat), cat not in viol and seen[cat] > 0, fsm.loc, '%s: %s' % (what[cat], viol.get(cat)))
